@@ -98,6 +98,10 @@ Eng0Of(k, d) ==
                     DK(j, d) = DK(k, d) /\ TextOk(SrcOf(j)) /\ (EngOf(j, d) = "T") = want /\ EngOf(j, d) \notin {"U", "-", "P"}
        IN IF ok THEN (IF want THEN "T" ELSE "F") ELSE "-"
   ELSE "-"
+(* the model's explanation is only needed where the run's property judges verdicts (the runner     *)
+(* sets EXPLAIN=0 for properties that judge outcomes and panics only): it costs an evaluation of  *)
+(* the optimiser model per judged event                                                          *)
+Explain == IOEnv.EXPLAIN # "0"
 WantEng == "plan" \in DOMAIN cur /\ "eng" \in DOMAIN cur.plan /\ cur.plan.eng
 EngDrift(k, d, out) ==
   IF WantEng /\ phase = "loaded" /\ k + 1 \in DOMAIN objs /\ d \in DOMAIN cur.docs /\ TextOk(SrcOf(k))
@@ -125,8 +129,8 @@ TrMatch ==
                  [obj |-> e.obj, d |-> e.d, out |-> e.out,
                   also |-> IF e.out # "p" /\ OracleBad(e.obj, d, v) /\ DenBad(e.obj, d, v) THEN <<"den">> ELSE <<>>,
                   lang |-> IF d \in DOMAIN cur.docs /\ HasOracle(cur) THEN SetSeq(TriAllowed(d)) ELSE <<>>,
-                  eng |-> EngOf(e.obj, d),
-                  eng0 |-> Eng0Of(e.obj, d),
+                  eng |-> IF Explain THEN EngOf(e.obj, d) ELSE "-",
+                  eng0 |-> IF Explain THEN Eng0Of(e.obj, d) ELSE "-",
                   den0 |-> IF DK(e.obj, d) \in DOMAIN den THEN (IF den[DK(e.obj, d)] THEN "t" ELSE "f") ELSE "-",
                   sw |-> IF e.obj + 1 \in DOMAIN objs THEN objs[e.obj + 1].sw ELSE <<>>])
           \* re-sync: an observation the oracle rejects still binds the denotation, so that later
@@ -145,8 +149,8 @@ TrTri ==
                  ELSE IF e.out \in Tri /\ e.out \in TriAllowed(d) THEN "den" ELSE "tri_oracle",
                  [obj |-> e.obj, d |-> e.d, out |-> e.out,
                   lang |-> IF d \in DOMAIN cur.docs /\ HasOracle(cur) THEN SetSeq(TriAllowed(d)) ELSE <<>>,
-                  eng |-> EngOf(e.obj, d),
-                  eng0 |-> Eng0Of(e.obj, d),
+                  eng |-> IF Explain THEN EngOf(e.obj, d) ELSE "-",
+                  eng0 |-> IF Explain THEN Eng0Of(e.obj, d) ELSE "-",
                   den0 |-> IF DK(e.obj, d) \in DOMAIN den THEN (IF den[DK(e.obj, d)] THEN "t" ELSE "f") ELSE "-",
                   sw |-> IF e.obj + 1 \in DOMAIN objs THEN objs[e.obj + 1].sw ELSE <<>>])
           /\ UNCHANGED rvars
@@ -180,7 +184,9 @@ TrReload ==
 StringKinds == {"any", "contains", "suffix", "prefix", "exact"}
 TrIdent ==
   /\ IsEv("ident") /\ Adv /\ UNCHANGED rvars
-  /\ LET m == IntoId(cur.text, cur.icb, {}) IN
+  \* which build executed the call: events merged in from the ignore_case harness carry build = "ic"
+  /\ LET icb == IF "build" \in DOMAIN e THEN e.build = "ic" ELSE cur.icb
+         m == IntoId(cur.text, icb, {}) IN
      IF e.out = "panic" THEN Bad("ident_panic", [out |-> e.out])
      ELSE IF m.st = "ok" /\ (e.out # "ok" \/ e.k # m.k \/ e.ic # m.ic)
           THEN Bad("ident_parse", [out |-> e.out, k |-> e.k, ic |-> e.ic, want |-> m])
@@ -188,6 +194,9 @@ TrIdent ==
           THEN Bad("ident_parse", [out |-> e.out, k |-> e.k, a |-> e.a, want |-> m])
      ELSE IF m.st = "err" /\ e.out # "err" THEN Bad("ident_parse", [out |-> e.out, k |-> e.k, want |-> m])
      ELSE IF m.st = "unk" /\ e.out = "ok" /\ e.k # m.k THEN Bad("ident_parse", [out |-> e.out, k |-> e.k, want |-> m])
+     \* a regex that compiles is compiled from exactly the text after the `?`, with the case flag
+     ELSE IF m.st = "unk" /\ e.out = "ok" /\ m.k = "regex" /\ (e.a # m.a \/ e.ic # m.ic)
+          THEN Bad("ident_parse", [out |-> e.out, k |-> e.k, a |-> e.a, ic |-> e.ic, want |-> m])
      ELSE Good
 
 (* arbitrary text / YAML shapes: loading and every textual layer return a value or an error *)
@@ -220,6 +229,19 @@ TrAlt ==
           /\ objs' = Append(objs, [sw |-> <<>>, st |-> "dead", src |-> 0])
           /\ UNCHANGED <<cur, phase, den, prints>>
 
+(* a second optimise() on an optimised object is the identity *)
+TrReopt ==
+  /\ IsEv("reopt") /\ Adv
+  /\ IF phase = "loaded" /\ e.from + 1 \in DOMAIN objs /\ e.obj = Len(objs) /\ e.out = "ok" /\ e.same
+        /\ objs[e.from + 1].st = "ok" /\ objs[e.from + 1].sw # NoSw
+     THEN ReOptimise(e.from, e.obj, e.out, e.same) /\ Good
+     ELSE /\ Bad(IF e.out = "panic" THEN "opt_panic" ELSE "reopt_differs", [out |-> e.out, from |-> e.from, sw2 |-> e.sw2])
+          \* re-sync: the object exists and is compared with its class all the same
+          /\ objs' = Append(objs, IF e.out = "ok" /\ e.from + 1 \in DOMAIN objs
+                                   THEN [sw |-> objs[e.from + 1].sw, st |-> "ok", src |-> objs[e.from + 1].src]
+                                   ELSE [sw |-> <<>>, st |-> "dead", src |-> 0])
+          /\ UNCHANGED <<cur, phase, den, prints>>
+
 (* C16: a match through a recording document.  The verdict is an ordinary observation; every    *)
 (* find(key) the engine made, on the root or on a nested object, must be for a key the rule     *)
 (* writes for that position.                                                                  *)
@@ -247,7 +269,7 @@ TrIcLoad ==
   /\ IF e.out \notin {"panic", "loop"} /\ (e.out = "ok") = (phase = "loaded") THEN Good
      ELSE Bad(IF e.out \in {"panic", "loop"} THEN "load_panic" ELSE "ic_load_differs", [out |-> e.out])
 
-TrNext == TrIcLoad \/ TrFinds \/ TrAlt \/ TrFound \/ TrIdent \/ TrFload \/ TrCore \/ TrCase \/ TrSkip \/ TrLoad \/ TrLoad2 \/ TrOpt \/ TrMatch \/ TrTri \/ TrValidate \/ TrSer \/ TrReload
+TrNext == TrIcLoad \/ TrFinds \/ TrAlt \/ TrReopt \/ TrFound \/ TrIdent \/ TrFload \/ TrCore \/ TrCase \/ TrSkip \/ TrLoad \/ TrLoad2 \/ TrOpt \/ TrMatch \/ TrTri \/ TrValidate \/ TrSer \/ TrReload
 
 TrSpec == TrInit /\ [][TrNext]_tvars
 
